@@ -23,8 +23,11 @@ RULES = {
     "R5": "accumulated change flags of the cloner are monotone (shared rule S3): a flag initialised false outside a loop, "
     "assigned inside it and read after it is only set by monotone forms - `changed = <this iteration>` forgets earlier "
     "iterations, so a rebuilt (remapped) collection is dropped and the clone keeps references into the original",
+    "R6": "shared tensors do not carry names between copies (shared with C03-R6): clones share tensor objects with their originals "
+    "and renaming a Value renames its tensor, so the serializer names every initializer after its Value (alignment statement "
+    "dominating the emission, or the proto's name overwritten unconditionally) - never after the tensor's own, possibly stale, name",
 }
-FLOORS = {"R1": 26, "R2": 30, "R3": 2, "R4": 1, "R5": 2}
+FLOORS = {"R1": 26, "R2": 30, "R3": 2, "R4": 1, "R5": 2, "R6": 1}
 EXPLANATION = (
     "A sharing analysis over the cloner and the clone() methods: each data flow original.field → clone is classified "
     "by the mutability of the field's declared class (computed from the source: setters, __setitem__, self-stores) "
@@ -531,25 +534,28 @@ def rule_r3_r4(ctx):
               "the functionalized pass runs on (or otherwise touches) its input model", how="every use of the parameter is <model>.clone()")
 
 
-def rule_s3(ctx):
+def rule_s3(ctx, rule="R5", modules=(CL,), mention=None, floor=2):
     from ..shared import accumulator_flags, nonmonotone_flags
 
     n = 0
-    for f in ctx.repo.module(CL).all_funcs:
+    for f in (g for mn in modules for g in ctx.repo.module(mn).all_funcs):
         if isinstance(f.node, ast.Lambda):
+            continue
+        if mention is not None and not any(isinstance(x, (ast.Attribute, ast.Name)) and mention in (x.attr if isinstance(x, ast.Attribute) else x.id)
+                                           for x in ast.walk(f.node)):
             continue
         flags = accumulator_flags(f)
         bad = {name: (a, lp) for name, a, lp in nonmonotone_flags(f)}
         for name in sorted(flags):
             n += 1
             a = bad.get(name)
-            ctx.check("R5", f"{f.local}: accumulator `{name}` is set monotonically inside its loop", a is None, f, a[0] if a else f.node,
+            ctx.check(rule, f"{f.local}: accumulator `{name}` is set monotonically inside its loop", a is None, f, a[0] if a else f.node,
                       f"`{norm(a[0]) if a else ''}` overwrites the accumulator on every iteration: whether the rebuilt result is used depends "
                       "only on the last element, so rewrites made for earlier elements are thrown away (e.g. sharding references of the "
                       "clone keep pointing at the original's values)",
                       how="initialised false outside the loop, read after it; in-loop assignments are True / flag or x / |= / +=",
                       construct=f"non-monotone accumulator {name}")
-    ctx.require(n >= 2, f"only {n} accumulator flags found in the cloner")
+    ctx.require(n >= floor, f"only {n} accumulator flags found in {modules}")
 
 
 def rule_outer_scope_explicit(ctx, rule="R3"):
@@ -607,6 +613,9 @@ def _param_default(f, name):
 
 
 def run(ctx):
+    from . import c03
+
+    c03.rule_r6(ctx, rule="R6", extra="; with a clone, renaming the initializer on one copy changes what the other copy serializes to")
     rule_graph_attr_returns(ctx)
     rule_s3(ctx)
     rule_r5(ctx)
